@@ -73,6 +73,31 @@ static void default_cases() {
         }, 60);
         if (f.died()) violation(key, "process died: " + fate_str(f));
     }
+    // a small FUNCTIONAL key set (real key generation, n = 8): every gate under the original and under the re-imported cloud key must give the same
+    // ciphertext object - mask, body and the variance annotation, i.e. the same exported bytes - on both transports
+    for (int file = 0; file < 2; file++) {
+        std::string key = fmt("functional-small/KeySets/%s", file ? "FILE" : "stream");
+        if (!take(key)) continue; if (deadline()) return; current(key);
+        Fate f = forked([&] {
+            uint32_t sd[2] = {8, 99}; tfhe_random_generator_setSeed(sd, 2);
+            LweParams *lp = new_LweParams(8, 1e-6, 0.01); TLweParams *tp = new_TLweParams(1024, 1, 1e-9, 0.01); TGswParams *gp = new_TGswParams(2, 10, tp); TFheGateBootstrappingParameterSet *ps = new TFheGateBootstrappingParameterSet(3, 2, lp, gp);
+            TFheGateBootstrappingSecretKeySet *sk = new_random_gate_bootstrapping_secret_keyset(ps);
+            Out o(file); if (file) export_tfheGateBootstrappingCloudKeySet_toFile(o.F, &sk->cloud); else export_tfheGateBootstrappingCloudKeySet_toStream(o.os, &sk->cloud); std::string bc = o.bytes(); In ic(file, bc);
+            TFheGateBootstrappingCloudKeySet *ck = file ? new_tfheGateBootstrappingCloudKeySet_fromFile(ic.F) : new_tfheGateBootstrappingCloudKeySet_fromStream(ic.is);
+            LweSample *in3 = new_gate_bootstrapping_ciphertext_array(3, ps), *r1 = new_gate_bootstrapping_ciphertext(ps), *r2 = new_gate_bootstrapping_ciphertext(ps);
+            typedef void (*G2)(LweSample *, const LweSample *, const LweSample *, const TFheGateBootstrappingCloudKeySet *);
+            struct { const char *n; G2 g; } gs[] = {{"NAND", bootsNAND}, {"AND", bootsAND}, {"OR", bootsOR}, {"XOR", bootsXOR}, {"XNOR", bootsXNOR}, {"NOR", bootsNOR}, {"ANDNY", bootsANDNY}, {"ANDYN", bootsANDYN}, {"ORNY", bootsORNY}, {"ORYN", bootsORYN}};
+            auto same = [&](const char *gname) { std::ostringstream a, b; export_gate_bootstrapping_ciphertext_toStream(a, r1, ps); export_gate_bootstrapping_ciphertext_toStream(b, r2, ps);
+                if (a.str() != b.str()) { violation(key, fmt("%s under the re-imported cloud key exports to different bytes than under the original key (a,b %s; variance annotation %.17g vs %.17g)", gname, (memcmp(r1->a, r2->a, 32) || r1->b != r2->b) ? "differ" : "equal", r1->current_variance, r2->current_variance)); return false; } return true; };
+            bool ok = true;
+            for (int bits = 0; bits < 8 && ok; bits++) { for (int q = 0; q < 3; q++) bootsSymEncrypt(in3 + q, (bits >> q) & 1, sk);
+                for (auto &g : gs) { g.g(r1, in3, in3 + 1, &sk->cloud); g.g(r2, in3, in3 + 1, ck); if (!(ok = same(g.n))) break; eval(1); }
+                if (ok) { bootsMUX(r1, in3, in3 + 1, in3 + 2, &sk->cloud); bootsMUX(r2, in3, in3 + 1, in3 + 2, ck); ok = same("MUX"); }
+                if (ok) { bootsNOT(r1, in3, &sk->cloud); bootsNOT(r2, in3, ck); ok = same("NOT"); } }
+            nontrivial(1); outcome(mix(0xF5, file));
+        }, 300);
+        if (f.died()) violation(key, "process died: " + fate_str(f) + " " + f.text.substr(0, 300));
+    }
     if (quick() && opt("fullkeys", "0") != "1") return;
     for (int lam : {80, 128}) for (int file = 0; file < 2; file++) {
         std::string key = fmt("default/lambda=%d/KeySets/%s", lam, file ? "FILE" : "stream");
